@@ -159,6 +159,29 @@ def lean_audit(module, nsprefix=None):
     return {k: v for k, v in thms.items() if k.startswith(nsprefix)}, False
 
 
+def leanchecker(modules):
+    """thorough tier: re-check the compiled modules with the toolchain's independent checker (cached per Lean source hash)"""
+    cache_dir = os.path.join(LEAN, ".lake", "audit")
+    os.makedirs(cache_dir, exist_ok=True)
+    key = lean_hash()
+    out = {}
+    for m in modules:
+        cpath = os.path.join(cache_dir, m + ".leanchecker.json")
+        try:
+            c = json.load(open(cpath))
+            if c.get("key") == key:
+                out[m] = c["result"]
+                continue
+        except Exception:  # noqa: BLE001
+            pass
+        rc, so, se = sh(["lake", "env", "leanchecker", m], cwd=LEAN, timeout=3000)
+        if rc != 0:
+            raise Infra("leanchecker rejects %s:\n%s\n%s" % (m, so[-2000:], se[-2000:]))
+        out[m] = "accepted"
+        json.dump({"key": key, "result": "accepted"}, open(cpath, "w"))
+    return out
+
+
 # ----------------------------------------------------------------------------------------------
 # tie (A): the NodeId kernel regenerated from the Python source
 # ----------------------------------------------------------------------------------------------
